@@ -78,7 +78,7 @@ __CPROVER_requires(VJ_IS_OBJECT(jwt->claims)) \
 __CPROVER_requires(VJ_TRACKED_OK(jwt->claims, g_vj_len_a)) \
 __CPROVER_requires(KEY_IS_NAME3) \
 __CPROVER_requires(__CPROVER_is_fresh(value, sizeof(*value))) \
-__CPROVER_requires(value->name != NULL && __CPROVER_r_ok(value->name, 4)) \
+__CPROVER_requires(__CPROVER_is_fresh(value->name, 4)) \
 __CPROVER_requires(value->type == JWT_VALUE_INT || value->type == JWT_VALUE_STR) \
 __CPROVER_assigns(value->error, value->int_val) \
 __CPROVER_ensures(__CPROVER_return_value == value->error) \
@@ -90,7 +90,9 @@ __CPROVER_ensures((SAME3(value->name) && __CPROVER_return_value == JWT_VALUE_ERR
 	value->int_val == (long)VJ_INT(jwt->claims)) \
 __CPROVER_ensures((SAME3(value->name) && __CPROVER_return_value == JWT_VALUE_ERR_NONE && value->type == JWT_VALUE_STR) ==> \
 	value->str_val == VJ_STR(jwt->claims)) \
-__CPROVER_ensures((__CPROVER_return_value == JWT_VALUE_ERR_NONE && value->type == JWT_VALUE_STR) ==> value->str_val != NULL)
+__CPROVER_ensures((__CPROVER_return_value == JWT_VALUE_ERR_NONE && value->type == JWT_VALUE_STR) ==> value->str_val != NULL) \
+__CPROVER_ensures((!SAME3(value->name) && __CPROVER_return_value == JWT_VALUE_ERR_NONE && value->type == JWT_VALUE_STR) ==> \
+	(g_vj_len_c < 0x1000000 && __CPROVER_is_fresh(value->str_val, g_vj_len_c + 1) && value->str_val[g_vj_len_c] == 0))
 DECL_C04_jwt_claim_get(contract_C04_jwt_claim_get);
 
 /* jwt_checker_claim_get (jwt-common.c): the expected iss/sub/aud string */
@@ -107,12 +109,17 @@ __CPROVER_assigns()
 __CPROVER_ensures((C04_TRACKS_TYPE(type) && VJ_IS_STR(checker->c.payload)) ==> __CPROVER_return_value == VJ_STR(checker->c.payload))
 __CPROVER_ensures((C04_TRACKS_TYPE(type) && !VJ_IS_STR(checker->c.payload)) ==> __CPROVER_return_value == NULL)
 __CPROVER_ensures(!(type == JWT_CLAIM_ISS || type == JWT_CLAIM_SUB || type == JWT_CLAIM_AUD) ==> __CPROVER_return_value == NULL)
+/* another (untracked) claim: NULL or some valid string */
+__CPROVER_ensures(C04_TRACKS_TYPE(type) || __CPROVER_return_value == NULL ||
+	(g_vj_len_c < 0x1000000 && __CPROVER_is_fresh(__CPROVER_return_value, g_vj_len_c + 1) && __CPROVER_return_value[g_vj_len_c] == 0))
 ;
 
 /* __check_str_claim */
 int contract_C04___check_str_claim(jwt_t *jwt, jwt_claims_t claim, char *claim_str)
 __CPROVER_requires(__CPROVER_is_fresh(jwt, sizeof(*jwt)))
 REQ_CLAIMS_STATE(jwt)
+__CPROVER_requires(__CPROVER_is_fresh(claim_str, 4))
+__CPROVER_requires(g_strcmp_hits < 1000)
 __CPROVER_requires((claim == JWT_CLAIM_ISS && KEY3(claim_str, 'i', 's', 's')) ||
 		   (claim == JWT_CLAIM_SUB && KEY3(claim_str, 's', 'u', 'b')) ||
 		   (claim == JWT_CLAIM_AUD && KEY3(claim_str, 'a', 'u', 'd')))
@@ -120,6 +127,7 @@ __CPROVER_assigns(g_strcmp_b, g_strcmp_ret, g_strcmp_hits)
 __CPROVER_ensures(__CPROVER_return_value == 0 || __CPROVER_return_value == 1)
 __CPROVER_ensures(C04_TRACKS_TYPE(claim) ==> ((__CPROVER_return_value != 0) == C04_STR_FAILS(jwt, claim)))
 __CPROVER_ensures(!(jwt->checker->c.claims & claim) ==> __CPROVER_return_value == 0)
+__CPROVER_ensures(g_strcmp_hits >= __CPROVER_old(g_strcmp_hits) && g_strcmp_hits <= __CPROVER_old(g_strcmp_hits) + 1)
 __CPROVER_ensures(!C04_TRACKS_TYPE(claim) ==> (g_strcmp_b == __CPROVER_old(g_strcmp_b) &&
 	g_strcmp_ret == __CPROVER_old(g_strcmp_ret) && g_strcmp_hits == __CPROVER_old(g_strcmp_hits)))
 ;
@@ -160,6 +168,9 @@ __CPROVER_requires(__CPROVER_is_fresh(jwt, sizeof(*jwt))) \
 REQ_CLAIMS_STATE(jwt) \
 __CPROVER_requires(g_strcmp_hits == 0) \
 __CPROVER_requires(CFG_OK(config)) \
+/* type invariant of jwt_alg_t values (0 .. JWT_ALG_INVAL) */ \
+__CPROVER_requires(SPEC_ALG_IN_ENUM(jwt->alg) && SPEC_ALG_IN_ENUM(config->alg) && \
+	(config->key == NULL || SPEC_ALG_IN_ENUM(config->key->alg))) \
 __CPROVER_requires(SPEC_ERRMSG_TERMINATED(jwt)) \
 __CPROVER_requires(C04_OBS(jwt) && VCP_OBS(jwt, config, sig_len)) \
 __CPROVER_assigns(jwt->error, SPEC_ERRMSG_FRAME(jwt), g_strcmp_b, g_strcmp_ret, g_strcmp_hits) \
